@@ -16,6 +16,7 @@ Definition uobs_eqb (a b : uobs) : bool :=
 
 Inductive c05case :=
 | CUser (c : ucfg) (ids tss probes : list Z) (before after : uobs)
+| CMore (c : ucfg) (ids tss probes mids mtss : list Z) (more : uobs)   (* sequential buffers: arrivals after the load *)
 | CWhole (pairs : list (Z * Z)) (clock_saved clock_loaded clock_later expect_later : Q)
 | CRelaunch (pairs : list (Z * Z)) (clock_end clock_start : Q).
 
@@ -29,6 +30,7 @@ Definition c05_agree (c : c05case) : bool :=
   match c with
   | CUser cfg ids tss probes b a =>
       uobs_eqb (before_save cfg ids tss probes) b && uobs_eqb (after_load cfg ids tss probes) a
+  | CMore cfg ids tss probes mids mtss m => uobs_eqb (after_more cfg ids tss probes mids mtss) m
   | _ => true
   end.
 
@@ -42,6 +44,9 @@ Definition c05_prop_ok (c : c05case) : bool :=
         Nat.leb (o_len a) (u_cap2 cfg) && Nat.eqb (o_len a) (length (o_items a)) &&
         zl_eqb (o_items a) (loaded_items cfg (o_items b)) &&
         nl_eqb (o_counts a) (map (fun c => match u_q2 cfg with Some q => Nat.min q c | None => c end) (o_counts b))
+  (* a loaded component behaves from then on like a fresh component of its own configuration that had been given
+     the retained history: nothing of the configuration it was saved from survives *)
+  | CMore cfg ids tss probes mids mtss m => uobs_eqb (after_more cfg ids tss probes mids mtss) m
   | CWhole pairs cs cl later expect => pairs_equal pairs && Qeq_bool cs cl && Qeq_bool later expect
   | CRelaunch pairs ce cs => pairs_equal pairs && Qeq_bool ce cs
   end.
